@@ -62,6 +62,29 @@ class BaseGotranODECodePrinter(StrPrinter):
         # (in parentheses, so that e.g. a power applies to the whole expression)
         return f"(-floor(-({self._print(expr.args[0])})))"
 
+    # Functions that sympy can introduce when it evaluates an expression, but
+    # which are not part of the grammar
+    def _print_cot(self, expr):
+        return f"(1/tan({self._print(expr.args[0])}))"
+
+    def _print_sec(self, expr):
+        return f"(1/cos({self._print(expr.args[0])}))"
+
+    def _print_csc(self, expr):
+        return f"(1/sin({self._print(expr.args[0])}))"
+
+    def _print_cosh(self, expr):
+        arg = self._print(expr.args[0])
+        return f"((exp({arg}) + exp(-({arg})))/2)"
+
+    def _print_sinh(self, expr):
+        arg = self._print(expr.args[0])
+        return f"((exp({arg}) - exp(-({arg})))/2)"
+
+    def _print_tanh(self, expr):
+        arg = self._print(expr.args[0])
+        return f"((exp({arg}) - exp(-({arg})))/(exp({arg}) + exp(-({arg}))))"
+
     def _print_Exp1(self, expr):
         # The symbol E is not part of the grammar
         return "exp(1)"
